@@ -138,6 +138,16 @@ fn generate(rng: &mut Rng) -> ConnScenario {
         prelude: vec![],
     };
     zero_time_noise(rng, &mut sc);
+    // back-pressure while routing: one Keep Alive is held back by the transport across the completion of a back-end call
+    if rng.chance(1, 4) {
+        let mut plain = sc.clone();
+        plain.wplan.clear();
+        let refo = run_conn(&plain);
+        let mut held = sc.clone();
+        if aim_hold_at_keep_alive(rng, &mut held, &refo) {
+            sc = held;
+        }
+    }
     sc
 }
 
@@ -274,13 +284,41 @@ impl Check for C03 {
         generate(rng)
     }
     fn execute(&self, sc: &ConnScenario) -> RunReport {
-        if !conn_domain_ok(sc) || !matches!(sc.client.intent, 2 | 3) || sc.client.script.is_some() || !sc.client.mutations.is_empty() || !matches!(sc.client.enc, crate::client::EncVariant::Honest) || !sc.client.send_info || !transport_is_zero_time(sc) {
+        if !conn_domain_ok(sc) || !matches!(sc.client.intent, 2 | 3) || sc.client.script.is_some() || !sc.client.mutations.is_empty() || !matches!(sc.client.enc, crate::client::EncVariant::Honest) || !sc.client.send_info {
             return RunReport::default();
         }
+        let held = !transport_is_zero_time(sc);
+        if held {
+            // a bounded hold on the server's writes; every gate event must be one that happens
+            use crate::pipe::{Gate, WRule};
+            if !sc.client.cuts.iter().all(|c| matches!(c.gate, Gate::Now)) || !wplan_is_bounded_hold(sc) || !matches!(sc.client.ka_default, crate::client::KaPolicy::Prompt) || !sc.client.ka.is_empty() {
+                return RunReport::default();
+            }
+            let s = &sc.services;
+            for w in &sc.wplan {
+                if let WRule::PendEvent { name, .. } = w {
+                    let lat = match name.as_str() {
+                        "discovery_done" => s.discovery.default.lat_ns,
+                        "filter_done" => s.filter.default.lat_ns,
+                        "strategy_done" => s.strategy.default.lat_ns,
+                        _ => None,
+                    };
+                    if lat.is_none() {
+                        return RunReport::default();
+                    }
+                }
+            }
+        }
         let out = run_conn(sc);
+        if held && sc.wplan.iter().any(|w| matches!(w, crate::pipe::WRule::PendEvent { name, .. } if !out.signals.contains_key(name))) {
+            return RunReport::default(); // the hold waits for a call that was never made (an earlier stage failed)
+        }
         let mut rep = base_report(&out);
         rep.nontrivial = out.events("svc:strategy", "call").count() > 0
             || out.log.iter().any(|e| e.kind == "done" && e.detail["result"] == json!("error"));
+        if held {
+            *rep.faults.entry("keep_alive_write_held_back".into()).or_insert(0) += 1;
+        }
         check(sc, &out, &mut rep);
         rep
     }
